@@ -315,7 +315,7 @@ Fixpoint union_under_seq (t : tstruct) : bool :=
 Local Open Scope string_scope.
 Definition prim_names : list string := ["string"; "number"; "boolean"; "void"].
 Definition taken_names : list string :=
-  ["string"; "number"; "boolean"; "void"; "null"; "undefined"; "unknown"; "any"; "never"; "Record"; "Array"; "z"; "types"; "Channel"].
+  ["string"; "number"; "boolean"; "void"; "null"; "undefined"; "unknown"; "any"; "never"; "Record"; "Array"; "z"; "types"; "Channel"; "typeof"].
 Local Close Scope string_scope.
 Definition in_names (n : str) (l : list string) : bool := existsb (fun x => str_eqb n (L x)) l.
 Definition name_ok (n : str) : bool :=
